@@ -420,6 +420,22 @@ class E(cohdl.Entity):
     def architecture(self):
         Sub(i=self.d, x=self.o)
 """,
+    "typed-view-as-actual": _FHEAD
+    + """
+class Sub(cohdl.Entity):
+    b = Port.input(BitVector[2])
+    x = Port.output(BitVector[2])
+    def architecture(self):
+        @std.concurrent
+        def logic():
+            self.x <<= ~self.b
+
+class E(cohdl.Entity):
+    d = Port.input(Unsigned[4])
+    o = Port.output(BitVector[2])
+    def architecture(self):
+        Sub(b=self.d.bitvector[1:0], x=self.o)
+""",
     "sub-entity-output-narrower-than-actual": _FHEAD
     + """
 class Sub(cohdl.Entity):
